@@ -9,7 +9,13 @@ plan('C17',
           'plain open/read; every case writes and reads back at least once, so every case is non-trivial (the empty content is named by the property); '
           'it is distinct when the hash of (content bytes, writer or operation list) differs. bin enumerates every size 0..1100, 65496..65576, '
           '131042..131102 and 199990..200000 before sampling; lines enumerates every single-line length 0..2000 x {no newline, LF, CRLF, LF+tail} '
-          'on its even indices',
+          'on its even indices. sameobj: one history of 3-12 calls (plus a closing write/close/read-back if the random part had none) on ONE long-lived File '
+          '(even indices) or TextFile (odd indices) object: metadata queries, open(WRITE/APPEND/READ), put/write/append/<<, close, seek(0), '
+          'content/text/firstBytes/lines/read/size, chosen at random among the calls the object\'s state supports; non-trivial when the object wrote and a '
+          'later judged observation through the same object followed; distinct by the hash of (call list, final bytes). copy_mt: 2-6 threads, each with '
+          '2-4 own files (0, <64 KiB, 65536, 65535/65537, 2-16 blocks, per-thread byte pattern + word counter) and 4-8 Directory::copy / File::copy / '
+          'Directory::move / File::move calls released together; every source and destination is then compared byte for byte; distinct by the hash of '
+          '(thread count, sizes, call list)',
      jobs=[
          Job('c17_files', 'bin', 'asan', quick=3000, thorough=80000, shards=(4, 12)),
          Job('c17_files', 'bin', 'plain', quick=3000, thorough=80000, shards=(2, 8)),
@@ -24,10 +30,28 @@ plan('C17',
          # sizes above 200000 bytes: to 1 MiB in the quick tier, sampled to 16 MiB in the thorough tier
          Job('c17_files', 'big', 'asan', quick=8, thorough=100, shards=(4, 6), params=dict(maxmb=1), tparams=dict(maxmb=16)),
          Job('c17_files', 'big', 'plain', quick=16, thorough=200, shards=(2, 6), params=dict(maxmb=1), tparams=dict(maxmb=16)),
+         # one long-lived File / TextFile object: metadata queries, opens, writes, closes and reads interleaved
+         Job('c17_files', 'sameobj', 'asan', quick=3000, thorough=80000, shards=(3, 12)),
+         Job('c17_files', 'sameobj', 'plain', quick=3000, thorough=80000, shards=(2, 8)),
+         # threads copying/moving their own files at the same time (beyond the stated quantifier, see assumptions)
+         Job('c17_files', 'copy_mt', 'plain', quick=160, thorough=3000, shards=(2, 4), weight=3, batch=20),
+         Job('c17_files', 'copy_mt', 'tsan', quick=40, thorough=600, shards=(2, 4), weight=3, batch=10, leakcheck=False),
+         Job('c17_files', 'copy_mt', 'asan', quick=24, thorough=300, shards=(1, 2), weight=3, batch=8),
      ],
      assumptions=COMMON_ASSUME + [
-         'files are written and re-read through fresh File/TextFile objects (the documented usage); a File object that cached size() before '
-         'another object changed the file is not exercised',
+         'modes bin/lines/hist/bom/copy/big write and re-read through fresh File/TextFile objects (the documented one-line usage); mode sameobj keeps ONE '
+         'object alive over the whole history. A File object that cached size() before ANOTHER object (or another process) changed the file is '
+         'not exercised',
+         'sameobj judges only what the property states, in the object states the library supports: content()/text()/firstBytes()/lines()/read() when '
+         'the object is closed or freshly opened for reading (position 0), size() whenever the object is not open for writing, and the bytes on '
+         'disk after every close and read. While the object is open for writing, size()/lastModified() (stat without the stdio buffer, or a value '
+         'cached earlier) are only counted; exists()/isFile()/isDirectory()/lastModified() are compared with stat() and counted, never judged. The '
+         'generator closes before every open(): File::open on an already open object overwrites the handle without closing it (handle lost) - '
+         'outside this property, not driven',
+         'mode copy_mt goes BEYOND the stated quantifier (the property names no threads): it exists because an independent seeded change (a '
+         'function-static block buffer in Directory::copy) showed that nothing observed copies running at the same time. Every thread touches only '
+         'its own files; the harness threads are std::thread and only hand data over through thread creation/join. It runs in plain, asan and tsan; '
+         'on the unchanged tree it is silent under TSan (Directory::copy/move and File::copy/move on distinct files share no state)',
          'lines()/readLine(): the reference is the split at LF with one CR removed before each LF; a final empty piece (empty text, or text '
          'ending in LF) may be reported or not, both are accepted and the convention seen is counted (asl reports it)',
          'the BOM clause is judged on text(); TextFile::text() folds CRLF to LF while decoding UTF-16, which is accepted and counted; UTF-16 '
@@ -42,7 +66,10 @@ T('C17', 'reference-model monitor: byte-string model of a path under write/appen
          'line splitter and UTF-8/16 encoders, run under ASan and at -O2',
   'Runs the real File/TextFile/Directory code on every size 0..1100 and the windows around the 65536-byte copy block, every single-line length '
   '0..2000 with each line ending, generated multi-line texts (LF/CRLF/lone CR, CR at the end of a 255-byte chunk), histories of writers on one '
-  'path, BOM files of random scalar sequences, copies/moves, and sizes sampled to 16 MiB (thorough); compares disk bytes and every reader with '
-  'the model and reports the counts of boundaries, operations, line-end and BOM kinds that were seen.',
+  'path, histories through one long-lived File/TextFile object (metadata queries, opens, writes, closes and reads interleaved), BOM files of '
+  'random scalar sequences, copies/moves (also from 2-6 threads at once on distinct files, additionally under TSan), and sizes sampled to 16 MiB '
+  '(thorough); compares disk bytes and every reader with the model and reports the counts of boundaries, operations, line-end and BOM kinds '
+  'that were seen.',
   'Trusts the harness model, the reference splitter/encoders (written from the property text), POSIX open/read/write, gcc ASan/UBSan. Sizes above '
-  '200000 are sampled, not enumerated. The cross-device branch of Directory::move is not reached.')
+  '200000 are sampled, not enumerated. The cross-device branch of Directory::move is not reached. Concurrent copies are scheduled by the OS: the '
+  'run reports how many pairs of copy calls of different threads overlapped in time.')
